@@ -738,3 +738,113 @@ impl Scenario for C04Uni {
         ]
     }
 }
+
+// =============================================================================================================
+// C02 (channel level): the recorded history must be explainable by one atomic bounded FIFO queue
+// =============================================================================================================
+
+pub struct C02Uni;
+
+pub fn history_to_lin(p: &UniParams, data: &UniRunData) -> (Vec<crate::lin::LinOp>, BTreeMap<u32, u64>) {
+    use crate::lin::{LinOp, Res};
+    let mut ops = vec![];
+    let mut freed_at = BTreeMap::new();
+    for e in data.events.iter() {
+        match e.kind {
+            EvKind::SendOp(_) => ops.push(LinOp { inv: e.inv, ret: e.ret, res: if e.accepted { Res::PushOk } else { Res::PushFull }, value: e.id, thread: e.thread }),
+            EvKind::Poll => {
+                if e.accepted {
+                    ops.push(LinOp { inv: e.inv, ret: e.ret, res: Res::PopSome, value: e.id, thread: e.thread });
+                    if !p.kind.is_zero_copy() {
+                        freed_at.insert(e.id, e.ret);
+                    }
+                } else {
+                    ops.push(LinOp { inv: e.inv, ret: e.ret, res: Res::PopEmpty, value: 0, thread: e.thread });
+                }
+            }
+            EvKind::Release => {
+                if p.kind.is_zero_copy() {
+                    freed_at.insert(e.id, e.ret);
+                }
+            }
+        }
+    }
+    (ops, freed_at)
+}
+
+impl Scenario for C02Uni {
+    type P = UniParams;
+    fn property(&self) -> &'static str {
+        "C02"
+    }
+    fn name(&self) -> &'static str {
+        "uni_lin"
+    }
+    fn engine(&self) -> &'static str {
+        "T"
+    }
+    fn generate(&self, rng: &mut Rng, tier: Tier) -> UniParams {
+        let mut p = draw_uni_params(rng, tier, &chan::UNI_KINDS, &chan::STREAMS, true);
+        // short histories: the checker's search is exponential in the worst case
+        p.streams = p.streams.min(2);
+        let mut budget = 8usize;
+        for ops in p.producers.iter_mut() {
+            ops.truncate(3.min(budget.max(1)));
+            budget = budget.saturating_sub(ops.len());
+        }
+        p.prefill = p.prefill.min(3);
+        p.spurious_poll = p.spurious_poll.min(64);
+        p
+    }
+    fn sched<'a>(&self, p: &'a UniParams) -> &'a SchedSpec {
+        &p.sched
+    }
+    fn with_sched(&self, p: &UniParams, s: SchedSpec) -> UniParams {
+        let mut q = p.clone();
+        q.sched = s;
+        q
+    }
+    fn body(&self, p: &UniParams) -> Option<Body> {
+        let p2 = p.clone();
+        Some(Arc::new(move || {
+            let data = uni_body(&p2, true);
+            if ctx::aborted() {
+                return;
+            }
+            let kind = p2.kind.name();
+            if data.pending_at_quiescence as usize != data.stuck_at_quiescence.len() && !data.blocked_producer {
+                ctx::report("C02", "pending_items_count_at_quiescence", format!("uni_lin/{}/pending_items_count_at_quiescence", kind), format!("at quiescence pending_items_count() answered {} while {} accepted events had not been received", data.pending_at_quiescence, data.stuck_at_quiescence.len()));
+            }
+            let (ops, freed_at) = history_to_lin(&p2, &data);
+            if ops.len() > 48 {
+                ctx::with_ctx(|c| *c.probes.entry("harness.lin.history_too_long_unchecked").or_insert(0) += 1);
+                return;
+            }
+            match crate::lin::check(&ops, crate::lin::Discipline::Fifo, p2.buffer, &freed_at, &[]) {
+                Ok(states) => {
+                    ctx::with_ctx(|c| {
+                        *c.probes.entry("harness.lin.histories_checked").or_insert(0) += 1;
+                        *c.probes.entry("harness.lin.search_states").or_insert(0) += states;
+                        if states == 0 {
+                            *c.probes.entry("harness.lin.search_gave_up").or_insert(0) += 1;
+                        }
+                    });
+                }
+                Err(e) => ctx::report("C02", e.oracle, format!("uni_lin/{}/{}/{}", kind, e.oracle, if p2.streams >= 2 { "streams2+" } else { "streams1" }), e.detail),
+            }
+        }))
+    }
+    fn shrink(&self, p: &UniParams) -> Vec<UniParams> {
+        shrink_uni(p)
+    }
+    fn size(&self, p: &UniParams) -> u64 {
+        size_uni(p)
+    }
+    fn assumptions(&self) -> Vec<String> {
+        vec![
+            "sequential consistency at the instrumented atomics; plain shared accesses interleave at the instrumented yield points".into(),
+            "'buffer full' answers are judged by the interval rule of the statement (accepted and not yet received / not yet released, reserved, or in flight)".into(),
+            "histories longer than 48 operations, or whose search exceeds 400000 states, are not judged (counted by probes)".into(),
+        ]
+    }
+}
